@@ -846,13 +846,13 @@ def _run_prog(ops, co=()):
                     inb[0] -= 1
         for idx, o in enumerate(ops):
             n0 = len(log)
-            for cpos, action in co:
-                if cpos == idx:
-                    bystander(action)
             k = o[0]
             kw = dict(('k%d' % a, b) for a, b in (o[1] if k in ('inc', 'sc') and len(o) > 1 else []))
             buf = io.StringIO()
             with contextlib.redirect_stdout(buf):
+                for cpos, action in co:
+                    if cpos == idx:
+                        bystander(action)      # inside the redirection: what pr's message callbacks print is observed
                 if k == 'inc':
                     pr.increment(**kw)
                 elif k == 'v':
